@@ -113,10 +113,11 @@ theorem Expr.ind {motive : Expr → Prop}
 
 theorem PVal.ind {motive : PVal → Prop}
     (val : ∀ v, motive (.val v)) (undef : ∀ p, motive (.undef p))
-    (coll : ∀ k items, (∀ kv ∈ items, motive kv.2) → motive (.coll k items)) : ∀ pv, motive pv := by
+    (coll : ∀ k items, (∀ kv ∈ items, motive kv.2) → motive (.coll k items))
+    (num : ∀ n, motive (.num n)) : ∀ pv, motive pv := by
   intro pv
   exact PVal.rec (motive_1 := motive) (motive_2 := fun items => ∀ kv ∈ items, motive kv.2)
-    (motive_3 := fun kv => motive kv.2) val undef (fun k items ih => coll k items ih)
+    (motive_3 := fun kv => motive kv.2) val undef (fun k items ih => coll k items ih) num
     (by intro kv h; cases h)
     (fun hd tl h1 h2 kv hm => by
       rcases List.mem_cons.mp hm with rfl | hm
@@ -283,6 +284,7 @@ theorem holds_str_error {pv : PVal} {q : Path} (h : pv.Holds q) :
   cases pv with
   | val v => cases h
   | undef p => exact ⟨.undefined p, by simp [PVal.str]⟩
+  | num n => cases h
   | coll k items => simpa [PVal.str] using holds_repr_error h
 
 /-- … and is found by the deep search of the wrapper -/
@@ -296,6 +298,7 @@ theorem findUndef_holds (pv : PVal) : ∀ q, pv.findUndef = some q → pv.Holds 
   induction pv using PVal.ind with
   | val v => intro q h; simp [PVal.findUndef] at h
   | undef p => intro q h; simp [PVal.findUndef] at h; subst h; exact .undef
+  | num n => intro q h; simp [PVal.findUndef] at h
   | coll k items ih =>
     intro q h
     simp only [PVal.findUndef] at h
@@ -308,6 +311,7 @@ theorem repr_error_holds (pv : PVal) : ∀ x, pv.repr .strict = .error x →
   induction pv using PVal.ind with
   | val v => intro x h; simp [PVal.repr] at h
   | undef p => intro x h; simp [PVal.repr] at h; exact ⟨p, .undef, h.symm⟩
+  | num n => intro x h; simp [PVal.repr] at h
   | coll k items ih =>
     intro x h
     simp only [PVal.repr] at h
@@ -324,6 +328,7 @@ theorem str_error_holds {pv : PVal} {x : Err} (h : pv.str .strict = .error x) :
   cases pv with
   | val v => simp [PVal.str] at h
   | undef p => simp [PVal.str] at h; exact ⟨p, .undef, h.symm⟩
+  | num n => simp [PVal.str, PVal.repr] at h
   | coll k items => exact repr_error_holds _ x (by simpa [PVal.str] using h)
 
 /-- a value without `Undefined` objects prints the same under every policy -/
@@ -331,6 +336,7 @@ theorem clean_repr (pol : Policy) (pv : PVal) : (∀ q, ¬ pv.Holds q) → pv.re
   induction pv using PVal.ind with
   | val v => intro _; simp [PVal.repr, PVal.reprL]
   | undef p => intro h; exact absurd .undef (h p)
+  | num n => intro _; simp [PVal.repr, PVal.reprL]
   | coll k items ih =>
     intro h
     have := reprItems_clean (pol := pol) (k := k) (items := items)
@@ -341,6 +347,7 @@ theorem clean_str (pol : Policy) {pv : PVal} (h : ∀ q, ¬ pv.Holds q) : pv.str
   cases pv with
   | val v => simp [PVal.str, PVal.strL]
   | undef p => exact absurd .undef (h p)
+  | num n => simp [PVal.str, PVal.strL, PVal.repr, PVal.reprL]
   | coll k items => simpa [PVal.str, PVal.strL] using clean_repr pol _ h
 
 /-- **a stored undefined reference survives evaluation as an `Undefined` object** (or the
@@ -888,6 +895,7 @@ theorem defined_exact_nativeE (cf : Conf) {ctx : Ctx} {e : Expr} (l r : Str)
     cases pv with
     | undef p => exact absurd .undef (hc p)
     | val v => rfl
+    | num n => rfl
     | coll k items => rfl
   have hs : cf.search pv = none := by
     unfold Conf.search; split
@@ -897,6 +905,7 @@ theorem defined_exact_nativeE (cf : Conf) {ctx : Ctx} {e : Expr} (l r : Str)
     cases pv with
     | undef p => exact absurd .undef (hc p)
     | val v => simp [PVal.out, hn]
+    | num n => simp [PVal.out, hn]
     | coll k items => simp [PVal.out, hn]
   exact ⟨pv, hpv, hc, by simp [renderSrc, hpv, hs, ho]⟩
 
@@ -1138,4 +1147,854 @@ theorem nested_native_rejected (cf : Conf) (ctx : Ctx) :
   simp only [parseAsString, h1, h2, h3, h4, Bool.not_true, Bool.and_false, Bool.false_eq_true,
     if_false, if_true]
 
+/-! ## consumers of containers: `|length`, `|first`, `|last`, `[i]`, `|join` — what is USED, what is dropped (F-C16-d) -/
+
+/-- the value handed to the printer cannot be printed iff the wrapper's search finds something in it -/
+theorem str_error_iff_findUndef (pv : PVal) :
+    (∃ x, pv.str .strict = .error x) ↔ pv.findUndef.isSome = true := by
+  constructor
+  · rintro ⟨x, hx⟩
+    obtain ⟨q, hq, _⟩ := str_error_holds hx
+    exact holds_findUndef hq
+  · intro h
+    obtain ⟨q, hq⟩ := Option.isSome_iff_exists.mp h
+    exact holds_str_error (findUndef_holds pv q hq)
+
+theorem str_error_is_undefined {pv : PVal} {x : Err} (h : pv.str .strict = .error x) :
+    ∃ p, x = .undefined p := by
+  obtain ⟨q, _, hq⟩ := str_error_holds h
+  exact ⟨q, hq⟩
+
+/-- **render_error_iff_used** (text, `{{ e }}`) -/
+theorem render_error_iff_used (ctx : Ctx) (e : CExpr) :
+    (∃ p, renderC .strict ctx e none = .error (.undefined p)) ↔ UsedUndef ctx e = true := by
+  unfold renderC UsedUndef
+  cases he : evalC ctx e with
+  | error x =>
+    cases x <;> simp
+  | ok pv =>
+    simp only
+    rw [← str_error_iff_findUndef]
+    constructor
+    · rintro ⟨p, hp⟩; exact ⟨_, hp⟩
+    · rintro ⟨x, hx⟩
+      obtain ⟨p, rfl⟩ := str_error_is_undefined hx
+      exact ⟨p, hx⟩
+
+theorem CExpr.ind {motive : CExpr → Prop}
+    (ref : ∀ p, motive (.ref p)) (dflt : ∀ p d, motive (.dflt p d))
+    (coll : ∀ k items, (∀ kv ∈ items, motive kv.2) → motive (.coll k items))
+    (len : ∀ e, motive e → motive (.len e)) (first : ∀ e, motive e → motive (.first e))
+    (last : ∀ e, motive e → motive (.last e)) (index : ∀ e i, motive e → motive (.index e i))
+    (join : ∀ s e, motive e → motive (.join s e)) : ∀ e, motive e := by
+  intro e
+  exact CExpr.rec (motive_1 := motive) (motive_2 := fun items => ∀ kv ∈ items, motive kv.2)
+    (motive_3 := fun kv => motive kv.2) ref dflt (fun k items ih => coll k items ih)
+    len first last index join
+    (by intro kv h; cases h)
+    (fun hd tl h1 h2 kv hm => by
+      rcases List.mem_cons.mp hm with rfl | hm
+      · exact h1
+      · exact h2 kv hm)
+    (fun k e h => h) e
+
+/-- no `Undefined` object inside -/
+def Clean (pv : PVal) : Prop := ∀ q, ¬ pv.Holds q
+
+theorem clean_val (v : Val) : Clean (.val v) := fun q h => by cases h
+theorem clean_num (n : Nat) : Clean (.num n) := fun q h => by cases h
+
+theorem elems_clean {pv : PVal} {xs : List PVal} (h : pv.elems = .ok xs) (hc : Clean pv) :
+    ∀ x ∈ xs, Clean x := by
+  intro x hx
+  cases pv with
+  | val v =>
+    cases v <;> simp [PVal.elems] at h <;> subst h <;> simp at hx <;>
+      (obtain ⟨a, _, rfl⟩ := hx; exact clean_val _)
+  | undef p => simp [PVal.elems] at h
+  | num n => simp [PVal.elems] at h
+  | coll k items =>
+    cases k <;> simp [PVal.elems] at h <;> subst h <;> simp at hx
+    · obtain ⟨a, hm⟩ := hx
+      exact fun q hq => hc q (.coll (kv := (a, x)) hm hq)
+    · obtain ⟨a, hm⟩ := hx
+      exact fun q hq => hc q (.coll (kv := (a, x)) hm hq)
+    · obtain ⟨a, b, _, rfl⟩ := hx; exact clean_val _
+    · obtain ⟨a, b, _, rfl⟩ := hx; exact clean_val _
+
+theorem elems_error_clean {pv : PVal} {x : Err} (h : pv.elems = .error x) (hc : Clean pv) :
+    x = .badOperand := by
+  cases pv with
+  | val v => cases v <;> simp [PVal.elems] at h
+  | undef p => exact absurd .undef (hc p)
+  | num n => simp [PVal.elems] at h; exact h.symm
+  | coll k items => cases k <;> simp [PVal.elems] at h
+
+theorem joinStrs_clean (sep : Str) {xs : List PVal} (h : ∀ x ∈ xs, Clean x) :
+    ∃ s, joinStrs sep xs = .ok s := by
+  induction xs with
+  | nil => exact ⟨_, rfl⟩
+  | cons a rest ih =>
+    obtain ⟨r, hr⟩ := ih (fun x hx => h x (by simp [hx]))
+    simp only [joinStrs, clean_str .strict (h a (by simp)), hr]
+    exact ⟨_, rfl⟩
+
+/-- no failure on an undefined object, and nothing undefined inside the result -/
+def Quiet (r : Except Err PVal) : Prop :=
+  (∀ p, r ≠ .error (.undefined p)) ∧ (∀ pv, r = .ok pv → Clean pv)
+
+theorem quiet_len {pv : PVal} (hc : Clean pv) : Quiet pv.len := by
+  unfold PVal.len
+  cases h : pv.elems with
+  | error x => rw [elems_error_clean h hc]; exact ⟨by simp, by simp⟩
+  | ok xs => exact ⟨by simp, by intro r hr; simp at hr; subst hr; exact clean_num _⟩
+
+theorem quiet_first {pv : PVal} (hc : Clean pv) : Quiet pv.first := by
+  unfold PVal.first
+  cases h : pv.elems with
+  | error x => rw [elems_error_clean h hc]; exact ⟨by simp, by simp⟩
+  | ok xs =>
+    cases hh : xs.head? with
+    | none => simp only [hh]; exact ⟨by simp, by simp⟩
+    | some x =>
+      simp only [hh]
+      refine ⟨by simp, ?_⟩
+      intro r hr; simp at hr; subst hr
+      exact elems_clean h hc x (List.mem_of_mem_head? hh)
+
+theorem quiet_last {pv : PVal} (hc : Clean pv) : Quiet pv.last := by
+  unfold PVal.last
+  cases h : pv.elems with
+  | error x => rw [elems_error_clean h hc]; exact ⟨by simp, by simp⟩
+  | ok xs =>
+    cases hh : xs.getLast? with
+    | none => simp only [hh]; exact ⟨by simp, by simp⟩
+    | some x =>
+      simp only [hh]
+      refine ⟨by simp, ?_⟩
+      intro r hr; simp at hr; subst hr
+      exact elems_clean h hc x (List.mem_of_getLast? hh)
+
+theorem quiet_index {pv : PVal} (i : Nat) (hc : Clean pv) : Quiet (pv.index i) := by
+  unfold PVal.index
+  cases h : pv.elems with
+  | error x => rw [elems_error_clean h hc]; exact ⟨by simp, by simp⟩
+  | ok xs =>
+    simp only
+    split
+    · exact ⟨by simp, by simp⟩
+    · cases hh : xs[i]? with
+      | none => simp only [hh]; exact ⟨by simp, by simp⟩
+      | some x =>
+        simp only [hh]
+        refine ⟨by simp, ?_⟩
+        intro r hr; simp at hr; subst hr
+        exact elems_clean h hc x (List.mem_of_getElem? hh)
+
+theorem quiet_join {pv : PVal} (sep : Str) (hc : Clean pv) : Quiet (pv.join sep) := by
+  unfold PVal.join
+  cases h : pv.elems with
+  | error x => rw [elems_error_clean h hc]; exact ⟨by simp, by simp⟩
+  | ok xs =>
+    obtain ⟨s, hs⟩ := joinStrs_clean sep (elems_clean h hc)
+    simp only [hs]
+    exact ⟨by simp, by intro r hr; simp at hr; subst hr; exact clean_val _⟩
+
+theorem evalCItems_error {ctx : Ctx} {items : List (Str × CExpr)} {x : Err}
+    (h : evalCItems ctx items = .error x) : ∃ kv ∈ items, evalC ctx kv.2 = .error x := by
+  induction items with
+  | nil => simp [evalCItems] at h
+  | cons kv rest ih =>
+    obtain ⟨k, e⟩ := kv
+    simp only [evalCItems] at h
+    cases he : evalC ctx e with
+    | error y =>
+      rw [he] at h; simp at h; subst h
+      exact ⟨(k, e), by simp, he⟩
+    | ok pv =>
+      rw [he] at h
+      cases hr : evalCItems ctx rest with
+      | error y =>
+        rw [hr] at h; simp at h; subst h
+        obtain ⟨kv, hm, hkv⟩ := ih hr
+        exact ⟨kv, by simp [hm], hkv⟩
+      | ok pvs => rw [hr] at h; cases h
+
+theorem evalCItems_ok {ctx : Ctx} {items : List (Str × CExpr)} {pvs : List (Str × PVal)}
+    (h : evalCItems ctx items = .ok pvs) :
+    (∀ pkv ∈ pvs, ∃ kv ∈ items, evalC ctx kv.2 = .ok pkv.2) := by
+  induction items generalizing pvs with
+  | nil =>
+    simp [evalCItems] at h; subst h
+    intro _ hm; cases hm
+  | cons a rest ih =>
+    obtain ⟨k, e⟩ := a
+    simp only [evalCItems] at h
+    cases he : evalC ctx e with
+    | error y => rw [he] at h; cases h
+    | ok pv =>
+      rw [he] at h
+      cases hr : evalCItems ctx rest with
+      | error y => rw [hr] at h; cases h
+      | ok ps =>
+        rw [hr] at h; simp at h; subst h
+        intro pkv hm
+        rcases List.mem_cons.mp hm with rfl | hm
+        · exact ⟨(k, e), by simp, he⟩
+        · obtain ⟨kv, hk, hv⟩ := ih hr pkv hm
+          exact ⟨kv, by simp [hk], hv⟩
+
+theorem mem_bareRefsItems {items : List (Str × CExpr)} {kv : Str × CExpr} {p : Path}
+    (hm : kv ∈ items) (h : p ∈ kv.2.bareRefs) : p ∈ bareRefsItems items := by
+  induction items with
+  | nil => cases hm
+  | cons a rest ih =>
+    obtain ⟨k, e⟩ := a
+    simp only [bareRefsItems, List.mem_append]
+    rcases List.mem_cons.mp hm with rfl | hm
+    · exact .inl h
+    · exact .inr (ih hm)
+
+/-- **no undefined reference named ⇒ nothing undefined anywhere**: evaluation does not fail on
+an undefined object and its result holds none — through every consumer -/
+theorem quiet_of_defined {ctx : Ctx} (e : CExpr) :
+    (∀ p ∈ e.bareRefs, Defined ctx p) → Quiet (evalC ctx e) := by
+  induction e using CExpr.ind with
+  | ref p =>
+    intro h
+    obtain ⟨v, hv⟩ := h p (by simp [CExpr.bareRefs])
+    simp only [evalC, hv]
+    exact ⟨by simp, by intro r hr; simp at hr; subst hr; exact clean_val _⟩
+  | dflt x d =>
+    intro _
+    simp only [evalC]
+    cases ctx.lookup x <;>
+      exact ⟨by simp, by intro r hr; simp at hr; subst hr; exact clean_val _⟩
+  | coll k items ih =>
+    intro h
+    simp only [evalC]
+    cases hr : evalCItems ctx items with
+    | error x =>
+      obtain ⟨kv, hm, hkv⟩ := evalCItems_error hr
+      have := (ih kv hm (fun p hp => h p (by simpa [CExpr.bareRefs] using mem_bareRefsItems hm hp))).1
+      refine ⟨?_, by simp⟩
+      intro p hp; simp at hp; subst hp; exact this p hkv
+    | ok pvs =>
+      refine ⟨by simp, ?_⟩
+      intro r hr'; simp at hr'; subst hr'
+      intro q hq
+      cases hq with
+      | @coll _ _ pkv _ hpm hph =>
+        obtain ⟨kv, hm, hkv⟩ := evalCItems_ok hr pkv hpm
+        exact (ih kv hm (fun p hp => h p (by simpa [CExpr.bareRefs] using mem_bareRefsItems hm hp))).2 _ hkv q hph
+  | len e ih =>
+    intro h
+    have := ih (by simpa [CExpr.bareRefs] using h)
+    simp only [evalC]
+    cases he : evalC ctx e with
+    | error x => exact ⟨by intro p hp; simp at hp; subst hp; exact this.1 p he, by simp⟩
+    | ok pv => exact quiet_len (this.2 pv he)
+  | first e ih =>
+    intro h
+    have := ih (by simpa [CExpr.bareRefs] using h)
+    simp only [evalC]
+    cases he : evalC ctx e with
+    | error x => exact ⟨by intro p hp; simp at hp; subst hp; exact this.1 p he, by simp⟩
+    | ok pv => exact quiet_first (this.2 pv he)
+  | last e ih =>
+    intro h
+    have := ih (by simpa [CExpr.bareRefs] using h)
+    simp only [evalC]
+    cases he : evalC ctx e with
+    | error x => exact ⟨by intro p hp; simp at hp; subst hp; exact this.1 p he, by simp⟩
+    | ok pv => exact quiet_last (this.2 pv he)
+  | index e i ih =>
+    intro h
+    have := ih (by simpa [CExpr.bareRefs] using h)
+    simp only [evalC]
+    cases he : evalC ctx e with
+    | error x => exact ⟨by intro p hp; simp at hp; subst hp; exact this.1 p he, by simp⟩
+    | ok pv => exact quiet_index i (this.2 pv he)
+  | join s e ih =>
+    intro h
+    have := ih (by simpa [CExpr.bareRefs] using h)
+    simp only [evalC]
+    cases he : evalC ctx e with
+    | error x => exact ⟨by intro p hp; simp at hp; subst hp; exact this.1 p he, by simp⟩
+    | ok pv => exact quiet_join s (this.2 pv he)
+
+theorem namesUndef_false_iff {ctx : Ctx} {e : CExpr} :
+    NamesUndef ctx e = false ↔ ∀ p ∈ e.bareRefs, Defined ctx p := by
+  simp [NamesUndef, definedB_iff]
+
+theorem findUndef_none_iff_clean (pv : PVal) : pv.findUndef = none ↔ Clean pv := by
+  constructor
+  · intro h q hq
+    have := holds_findUndef hq
+    rw [h] at this; cases this
+  · intro h
+    cases hf : pv.findUndef with
+    | none => rfl
+    | some q => exact absurd (findUndef_holds pv q hf) (h q)
+
+/-- **defined_exact through the consumers (c)**: an expression that names no undefined
+reference uses none -/
+theorem used_names {ctx : Ctx} {e : CExpr} (h : UsedUndef ctx e = true) : NamesUndef ctx e = true := by
+  cases hn : NamesUndef ctx e with
+  | true => rfl
+  | false =>
+    have q := quiet_of_defined e (namesUndef_false_iff.mp hn)
+    unfold UsedUndef at h
+    cases he : evalC ctx e with
+    | error x =>
+      rw [he] at h
+      cases x with
+      | undefined p => exact absurd he (q.1 p)
+      | _ => simp at h
+    | ok pv =>
+      rw [he] at h
+      simp only at h
+      rw [(findUndef_none_iff_clean pv).mpr (q.2 pv he)] at h
+      cases h
+
+/-- what an unused expression is: it evaluates, to a value without `Undefined` objects -/
+theorem unused_clean {ctx : Ctx} {e : CExpr} (hu : UsedUndef ctx e = false)
+    (hoff : OffFragment ctx e = false) : ∃ pv, evalC ctx e = .ok pv ∧ Clean pv := by
+  unfold UsedUndef at hu
+  unfold OffFragment at hoff
+  cases he : evalC ctx e with
+  | error x => rw [he] at hu hoff; cases x <;> simp at hu hoff
+  | ok pv =>
+    rw [he] at hu
+    refine ⟨pv, rfl, (findUndef_none_iff_clean pv).mp ?_⟩
+    cases hf : pv.findUndef with
+    | none => rfl
+    | some q => simp [hf] at hu
+
+theorem used_not_off {ctx : Ctx} {e : CExpr} (hu : UsedUndef ctx e = true) : OffFragment ctx e = false := by
+  unfold UsedUndef at hu
+  unfold OffFragment
+  cases he : evalC ctx e with
+  | error x => rw [he] at hu; cases x <;> simp at hu ⊢
+  | ok pv => rfl
+
+/-- **render_error_iff_used, `{{ e ~ f }}`** (both operands inside the fragment) -/
+theorem render_error_iff_used_cat (ctx : Ctx) (e f : CExpr)
+    (he : OffFragment ctx e = false) (hf : OffFragment ctx f = false) :
+    (∃ p, renderC .strict ctx e (some f) = .error (.undefined p)) ↔
+      (UsedUndef ctx e = true ∨ UsedUndef ctx f = true) := by
+  cases hee : evalC ctx e with
+  | error x =>
+    cases x <;> simp [OffFragment, hee] at he <;> simp [renderC, UsedUndef, hee]
+  | ok a =>
+    cases hff : evalC ctx f with
+    | error x =>
+      cases x <;> simp [OffFragment, hff] at hf <;> simp [renderC, UsedUndef, hee, hff]
+    | ok b =>
+      have h1 := str_error_iff_findUndef a
+      have h2 := str_error_iff_findUndef b
+      simp only [renderC, UsedUndef, hee, hff]
+      rw [← h1, ← h2]
+      cases ha : a.str .strict with
+      | error x =>
+        obtain ⟨p, rfl⟩ := str_error_is_undefined ha
+        simp
+      | ok sa =>
+        cases hb : b.str .strict with
+        | error x =>
+          obtain ⟨p, rfl⟩ := str_error_is_undefined hb
+          simp
+        | ok sb => simp
+
+/-- **render_error_iff_used, native `{@ e @}`**: the wrapper's search fails on exactly the same
+expressions as the printer -/
+theorem native_error_iff_used (ctx : Ctx) (l r : Str) (e : CExpr) :
+    (∃ p, renderSrc Conf.repo ctx (.natC l e r) = .error (.undefined p)) ↔ UsedUndef ctx e = true := by
+  unfold UsedUndef
+  simp only [renderSrc]
+  cases he : evalC ctx e with
+  | error x => cases x <;> simp
+  | ok pv =>
+    simp only [Conf.search, Conf.repo]
+    cases hf : pv.findUndef with
+    | none => simp
+    | some q => simp
+
+/-- **silent_iff_dropped** = F-C16-d's trigger as a theorem: inside the fragment, `{{ e }}` is
+DELIVERED iff no undefined reference of `e` is used — every `Undefined` object that `e` makes
+was counted, dropped or selected away — and then what is delivered is exactly the text of the
+(undefined-free) value, natively the value itself. -/
+theorem silent_iff_dropped (ctx : Ctx) (e : CExpr) (hoff : OffFragment ctx e = false) :
+    (∃ s, renderC .strict ctx e none = .ok s) ↔ UsedUndef ctx e = false := by
+  constructor
+  · rintro ⟨s, hs⟩
+    cases hu : UsedUndef ctx e with
+    | false => rfl
+    | true =>
+      obtain ⟨p, hp⟩ := (render_error_iff_used ctx e).mpr hu
+      rw [hp] at hs; cases hs
+  · intro hu
+    obtain ⟨pv, hpv, hc⟩ := unused_clean hu hoff
+    exact ⟨pv.strL, by simp [renderC, hpv, clean_str .strict hc]⟩
+
+theorem unused_exact (cf : Conf) (pol : Policy) {ctx : Ctx} {e : CExpr} (l r : Str)
+    (hu : UsedUndef ctx e = false) (hoff : OffFragment ctx e = false) :
+    ∃ pv, evalC ctx e = .ok pv ∧ Clean pv ∧ renderC pol ctx e none = .ok pv.strL ∧
+      renderSrc cf ctx (.natC l e r) = .ok (.pvalue pv) := by
+  obtain ⟨pv, hpv, hc⟩ := unused_clean hu hoff
+  have hn := (findUndef_none_iff_clean pv).mpr hc
+  have ht : pv.topUndef = none := by
+    cases pv with
+    | undef p => exact absurd .undef (hc p)
+    | val v => rfl
+    | num n => rfl
+    | coll k items => rfl
+  have hs : cf.search pv = none := by
+    unfold Conf.search; split
+    · split <;> assumption
+    · rfl
+  have ho : pv.out = .pvalue pv := by
+    cases pv with
+    | undef p => exact absurd .undef (hc p)
+    | val v => simp [PVal.out, hn]
+    | num n => simp [PVal.out, hn]
+    | coll k items => simp [PVal.out, hn]
+  exact ⟨pv, hpv, hc, by simp [renderC, hpv, clean_str pol hc], by simp [renderSrc, hpv, hs, ho]⟩
+
+/-! ### `UsedUndef` read structurally: the laws of counting, storing and selecting -/
+
+/-- evaluating `e` fails on an undefined object -/
+def Raises (ctx : Ctx) (e : CExpr) : Bool :=
+  match evalC ctx e with
+  | .error (.undefined _) => true
+  | _ => false
+
+/-- `e` evaluates to the bare `Undefined` object -/
+def BareUndef (ctx : Ctx) (e : CExpr) : Bool :=
+  match evalC ctx e with
+  | .ok (.undef _) => true
+  | _ => false
+
+theorem used_ref (ctx : Ctx) (p : Path) : UsedUndef ctx (.ref p) = !definedB ctx p := by
+  unfold UsedUndef definedB
+  cases h : resolve ctx p <;> simp [evalC, h, PVal.findUndef]
+
+theorem used_dflt (ctx : Ctx) (x d : Str) : UsedUndef ctx (.dflt x d) = false := by
+  unfold UsedUndef
+  cases h : ctx.lookup x <;> simp [evalC, h, PVal.findUndef]
+
+/-- **counting law**: `e|length` uses an undefined reference only if `e` itself fails or IS the
+undefined object — never because of what the counted container HOLDS -/
+theorem used_len (ctx : Ctx) (e : CExpr) :
+    UsedUndef ctx (.len e) = (Raises ctx e || BareUndef ctx e) := by
+  unfold UsedUndef Raises BareUndef
+  simp only [evalC]
+  cases he : evalC ctx e with
+  | error x => cases x <;> simp
+  | ok pv =>
+    cases pv with
+    | val v => cases v <;> simp [PVal.len, PVal.elems, PVal.findUndef]
+    | undef p => simp [PVal.len, PVal.elems]
+    | num n => simp [PVal.len, PVal.elems]
+    | coll k items => cases k <;> simp [PVal.len, PVal.elems, PVal.findUndef]
+
+/-- **storing law**: a container literal (inside the fragment) uses an undefined reference iff
+one of its items does -/
+theorem used_coll (ctx : Ctx) (k : CKind) (items : List (Str × CExpr))
+    (hoff : OffFragment ctx (.coll k items) = false) :
+    UsedUndef ctx (.coll k items) = items.any fun kv => UsedUndef ctx kv.2 := by
+  induction items with
+  | nil => simp [UsedUndef, evalC, evalCItems, PVal.findUndef, findUndefItems]
+  | cons a rest ih =>
+    obtain ⟨key, e⟩ := a
+    simp only [List.any_cons]
+    cases he : evalC ctx e with
+    | error x =>
+      cases x <;> simp [OffFragment, evalC, evalCItems, he] at hoff <;>
+        simp [UsedUndef, evalC, evalCItems, he]
+    | ok pv =>
+      cases hr : evalCItems ctx rest with
+      | error x =>
+        have hoff' : OffFragment ctx (.coll k rest) = false := by
+          cases x <;> simp [OffFragment, evalC, evalCItems, he, hr] at hoff ⊢
+        rw [← ih hoff']
+        cases x <;> simp [OffFragment, evalC, evalCItems, he, hr] at hoff <;>
+          simp [UsedUndef, evalC, evalCItems, he, hr]
+      | ok pvs =>
+        have hoff' : OffFragment ctx (.coll k rest) = false := by
+          simp [OffFragment, evalC, hr]
+        rw [← ih hoff']
+        simp only [UsedUndef, evalC, evalCItems, he, hr, PVal.findUndef, findUndefItems]
+        cases pv.findUndef <;> simp
+
+/-- evaluating the items fails on an undefined object -/
+def RaisesItems (ctx : Ctx) (items : List (Str × CExpr)) : Bool :=
+  match evalCItems ctx items with
+  | .error (.undefined _) => true
+  | _ => false
+
+/-- **selecting law**: `[x, …]|first` (list or tuple literal, inside the fragment) uses an
+undefined reference iff the SELECTED item does, or evaluating one of the others fails — what the
+other items merely HOLD is dropped (`{{ [a, nope]|first }}` = `A`) -/
+theorem used_first_cons (ctx : Ctx) (k : CKind) (key : Str) (x : CExpr) (rest : List (Str × CExpr))
+    (hk : k = .list ∨ k = .tuple)
+    (hoff : OffFragment ctx (.coll k ((key, x) :: rest)) = false) :
+    UsedUndef ctx (.first (.coll k ((key, x) :: rest))) = (UsedUndef ctx x || RaisesItems ctx rest) := by
+  cases hx : evalC ctx x with
+  | error e =>
+    cases e <;> simp [OffFragment, evalC, evalCItems, hx] at hoff <;>
+      simp [UsedUndef, evalC, evalCItems, hx]
+  | ok pv =>
+    cases hr : evalCItems ctx rest with
+    | error e =>
+      cases e <;> simp [OffFragment, evalC, evalCItems, hx, hr] at hoff <;>
+        simp [UsedUndef, RaisesItems, evalC, evalCItems, hx, hr]
+    | ok pvs =>
+      rcases hk with rfl | rfl <;>
+        simp [UsedUndef, RaisesItems, evalC, evalCItems, hx, hr, PVal.first, PVal.elems, CKind.norm]
+
+/-- **keys law**: a dict literal is consumed through its KEYS: `{'k': v, …}|first` never uses
+what the values hold (`{{ {'k': nope}|first }}` = `k`) -/
+theorem used_first_dict (ctx : Ctx) (k : CKind) (items : List (Str × CExpr))
+    (hk : k = .dict ∨ k = .dictCall) (hoff : OffFragment ctx (.first (.coll k items)) = false) :
+    UsedUndef ctx (.first (.coll k items)) = RaisesItems ctx items := by
+  cases hr : evalCItems ctx items with
+  | error e => cases e <;> simp [UsedUndef, RaisesItems, evalC, hr]
+  | ok pvs =>
+    cases pvs with
+    | nil => rcases hk with rfl | rfl <;> simp [OffFragment, evalC, hr, PVal.first, PVal.elems, CKind.norm] at hoff
+    | cons a r =>
+      rcases hk with rfl | rfl <;>
+        simp [UsedUndef, RaisesItems, evalC, hr, PVal.first, PVal.elems, CKind.norm, PVal.findUndef]
+
+/-! ### the consumer-free fragment: `UsedUndef` is `Stored ∧ ¬ Defined` (corollary a) -/
+
+theorem evalC_toC (ctx : Ctx) (e : Expr) : evalC ctx e.toC = evalE ctx e := by
+  exact Expr.rec (motive_1 := fun e => evalC ctx e.toC = evalE ctx e)
+    (motive_2 := fun items => evalCItems ctx (itemsToC items) = evalItems ctx items)
+    (motive_3 := fun kv => evalC ctx kv.2.toC = evalE ctx kv.2)
+    (fun p => by simp [Expr.toC, evalC, evalE]) (fun x d => by simp [Expr.toC, evalC, evalE])
+    (fun k items ih => by simp [Expr.toC, evalC, evalE, ih])
+    (by simp [itemsToC, evalCItems, evalItems])
+    (fun hd tl h1 h2 => by
+      obtain ⟨k, e⟩ := hd
+      simp only at h1
+      simp [itemsToC, evalCItems, evalItems, h1, h2])
+    (fun k e h => h) e
+
+/-- the consumer expressions extend the old fragment conservatively -/
+theorem renderC_toC (pol : Policy) (ctx : Ctx) (e : Expr) :
+    renderC pol ctx e.toC none = renderT pol ctx (.expr e none) := by
+  simp [renderC, renderT, evalC_toC]
+
+/-- **without consumers nothing is dropped**: `UsedUndef` is exactly "stores a reference the
+context does not define" — so `undefined_is_error` on the consumer-free fragment is the special
+case of `render_error_iff_used` -/
+theorem used_consumer_free_iff (ctx : Ctx) (e : Expr) :
+    UsedUndef ctx e.toC = true ↔ ∃ p, Stored e p ∧ ¬ Defined ctx p := by
+  unfold UsedUndef
+  rw [evalC_toC]
+  cases he : evalE ctx e with
+  | error x =>
+    obtain ⟨p, hs, hd, rfl⟩ := evalE_error_cause e x he
+    simp only [true_iff]
+    exact ⟨p, hs, hd⟩
+  | ok pv =>
+    simp only
+    constructor
+    · intro h
+      obtain ⟨q, hq⟩ := Option.isSome_iff_exists.mp h
+      exact ⟨q, evalE_holds_cause e pv q he (findUndef_holds pv q hq)⟩
+    · rintro ⟨p, hs, hd⟩
+      rcases stored_undefined hs hd with ⟨x, hx⟩ | ⟨pv', hpv, hh⟩
+      · rw [he] at hx; cases hx
+      · rw [he] at hpv; simp at hpv; subst hpv
+        exact holds_findUndef hh
+
+theorem undefined_is_error_consumer_free {ctx : Ctx} {e : Expr} {p : Path}
+    (h : Stored e p) (hu : ¬ Defined ctx p) :
+    ∃ q, renderC .strict ctx e.toC none = .error (.undefined q) :=
+  (render_error_iff_used ctx e.toC).mpr ((used_consumer_free_iff ctx e).mpr ⟨p, h, hu⟩)
+
+/-! ### kernel-checked witnesses: the shapes of F-C16-d, and their USED counterparts -/
+
+def cA : Ctx := [("a".toList, .str "A".toList)]
+def rA : CExpr := .ref ⟨"a".toList, []⟩
+def rN : CExpr := .ref ⟨"nope".toList, []⟩
+def lst (xs : List CExpr) : CExpr := .coll .list (xs.map fun x => ([], x))
+
+/-- `{{ [nope]|length }}` = `1`, `{{ [a, nope]|first }}` = `A`, `{{ [nope, a]|last }}` = `A`,
+`{{ [a, nope][0] }}` = `A`, `{{ {'k': nope}|length }}` = `1`, `{{ {'k': nope}|first }}` = `k`,
+`{{ [[a, nope]|length] }}` = `[2]`, `{{ [[nope], a]|first|length }}` = `1`: each NAMES an
+undefined reference, USES none, and is delivered — F-C16-d -/
+theorem f_c16_d_shapes :
+    (renderC .strict cA (.len (lst [rN])) none = .ok "1".toList ∧
+      NamesUndef cA (.len (lst [rN])) = true ∧ UsedUndef cA (.len (lst [rN])) = false) ∧
+    (renderC .strict cA (.first (lst [rA, rN])) none = .ok "A".toList ∧
+      NamesUndef cA (.first (lst [rA, rN])) = true ∧ UsedUndef cA (.first (lst [rA, rN])) = false) ∧
+    (renderC .strict cA (.last (lst [rN, rA])) none = .ok "A".toList ∧
+      UsedUndef cA (.last (lst [rN, rA])) = false) ∧
+    (renderC .strict cA (.index (lst [rA, rN]) 0) none = .ok "A".toList ∧
+      UsedUndef cA (.index (lst [rA, rN]) 0) = false) ∧
+    (renderC .strict cA (.len (.coll .dict [("k".toList, rN)])) none = .ok "1".toList ∧
+      UsedUndef cA (.len (.coll .dict [("k".toList, rN)])) = false) ∧
+    (renderC .strict cA (.first (.coll .dict [("k".toList, rN)])) none = .ok "k".toList ∧
+      UsedUndef cA (.first (.coll .dict [("k".toList, rN)])) = false) ∧
+    (renderC .strict cA (lst [.len (lst [rA, rN])]) none = .ok "[2]".toList ∧
+      UsedUndef cA (lst [.len (lst [rA, rN])]) = false) ∧
+    (renderC .strict cA (.len (.first (lst [lst [rN], rA]))) none = .ok "1".toList ∧
+      UsedUndef cA (.len (.first (lst [lst [rN], rA]))) = false) := by decide
+
+/-- native: `{@ [nope, a]|length @}` hands over the number 2 -/
+theorem f_c16_d_shape_native :
+    (match renderSrc Conf.repo cA (.natC " ".toList (.len (lst [rN, rA])) " ".toList) with
+      | .ok (.pvalue (.num 2)) => true
+      | _ => false) = true ∧
+    NamesUndef cA (.len (lst [rN, rA])) = true ∧ UsedUndef cA (.len (lst [rN, rA])) = false := by decide
+
+/-- the USED counterparts are errors: `{{ [nope, a]|first }}`, `{{ [a, nope]|last }}`,
+`{{ [a, nope][1] }}`, `{{ [a, nope]|join('-') }}`, `{{ [a, [nope]]|join('-') }}`,
+`{{ [[nope], a]|first }}`, `{{ nope|length }}` -/
+theorem used_shapes :
+    renderC .strict cA (.first (lst [rN, rA])) none = .error (.undefined ⟨"nope".toList, []⟩) ∧
+    renderC .strict cA (.last (lst [rA, rN])) none = .error (.undefined ⟨"nope".toList, []⟩) ∧
+    renderC .strict cA (.index (lst [rA, rN]) 1) none = .error (.undefined ⟨"nope".toList, []⟩) ∧
+    renderC .strict cA (.join "-".toList (lst [rA, rN])) none = .error (.undefined ⟨"nope".toList, []⟩) ∧
+    renderC .strict cA (.join "-".toList (lst [rA, lst [rN]])) none = .error (.undefined ⟨"nope".toList, []⟩) ∧
+    renderC .strict cA (.first (lst [lst [rN], rA])) none = .error (.undefined ⟨"nope".toList, []⟩) ∧
+    renderC .strict cA (.len rN) none = .error (.undefined ⟨"nope".toList, []⟩) ∧
+    UsedUndef cA (.first (lst [rN, rA])) = true ∧ UsedUndef cA (.join "-".toList (lst [rA, rN])) = true ∧
+    UsedUndef cA (.len rN) = true := by decide
+
+/-- defined and `default`-protected twins are delivered exactly -/
+example :
+    renderC .strict cA (.join "-".toList (lst [rA, lst [rA]])) none = .ok "A-['A']".toList ∧
+    renderC .strict cA (.first (lst [.dflt "nope".toList "d".toList, rA])) none = .ok "d".toList ∧
+    renderC .strict cA (.len (lst [rA, rA])) (some (.last (lst [rA]))) = .ok "2A".toList := by decide
+
+/-- **the hypothesis "inside the fragment" of `silent_iff_dropped` is needed**: `{{ []|first }}`
+uses no undefined reference and still is not delivered (Jinja: an `Undefined` object made by the
+filter itself — no variable is named) -/
+theorem needs_in_fragment :
+    renderC .strict cA (.first (lst [])) none = .error .noElement ∧
+    UsedUndef cA (.first (lst [])) = false ∧ OffFragment cA (.first (lst [])) = true ∧
+    NamesUndef cA (.first (lst [])) = false := by decide
+
+/-- non-vacuity of `render_error_iff_used_cat`: `{{ a ~ [a, nope]|first }}` is delivered,
+`{{ [a, nope]|length ~ [nope]|last }}` is not -/
+example :
+    renderC .strict cA rA (some (.first (lst [rA, rN]))) = .ok "AA".toList ∧
+    OffFragment cA rA = false ∧ OffFragment cA (.first (lst [rA, rN])) = false ∧
+    renderC .strict cA (.len (lst [rA, rN])) (some (.last (lst [rN])))
+      = .error (.undefined ⟨"nope".toList, []⟩) := by decide
+
+/-! ### the remaining laws: joining, indexing, `last`, dict keys; consumers only drop -/
+theorem joinStrs_used (sep : Str) (pvs : List (Str × PVal)) :
+    (match joinStrs sep (pvs.map Prod.snd) with
+      | .error (.undefined _) => true
+      | .error _ => false
+      | .ok _ => false) = (findUndefItems pvs).isSome := by
+  induction pvs with
+  | nil => simp [joinStrs, findUndefItems]
+  | cons a rest ih =>
+    obtain ⟨key, pv⟩ := a
+    simp only [List.map_cons, joinStrs, findUndefItems]
+    cases hs : pv.str .strict with
+    | error x =>
+      obtain ⟨p, rfl⟩ := str_error_is_undefined hs
+      have := (str_error_iff_findUndef pv).mp ⟨_, hs⟩
+      obtain ⟨q, hq⟩ := Option.isSome_iff_exists.mp this
+      simp [hq]
+    | ok s =>
+      have hn : pv.findUndef = none := by
+        cases hf : pv.findUndef with
+        | none => rfl
+        | some q =>
+          obtain ⟨x, hx⟩ := (str_error_iff_findUndef pv).mpr (by simp [hf])
+          rw [hs] at hx; cases hx
+      simp only [hn]
+      rw [← ih]
+      cases hj : joinStrs sep (rest.map Prod.snd) with
+      | error x => cases x <;> simp
+      | ok r => simp
+
+/-- **joining law**: `[…]|join('sep')` over a list / tuple literal uses an undefined reference
+iff one of its items does — every element is printed, nothing is dropped -/
+theorem used_join_coll (ctx : Ctx) (sep : Str) (k : CKind) (items : List (Str × CExpr))
+    (hk : k = .list ∨ k = .tuple) (hoff : OffFragment ctx (.join sep (.coll k items)) = false) :
+    UsedUndef ctx (.join sep (.coll k items)) = items.any fun kv => UsedUndef ctx kv.2 := by
+  have hoff' : OffFragment ctx (.coll k items) = false := by
+    cases hr : evalCItems ctx items with
+    | error x => cases x <;> simp [OffFragment, evalC, hr] at hoff ⊢
+    | ok pvs => simp [OffFragment, evalC, hr]
+  rw [← used_coll ctx k items hoff']
+  cases hr : evalCItems ctx items with
+  | error x => cases x <;> simp [UsedUndef, evalC, hr]
+  | ok pvs =>
+    have := joinStrs_used sep pvs
+    rcases hk with rfl | rfl <;>
+      simp only [UsedUndef, evalC, hr, PVal.join, PVal.elems, CKind.norm, PVal.findUndef, ← this] <;>
+      (cases hj : joinStrs sep (pvs.map Prod.snd) with
+        | error x => cases x <;> simp
+        | ok r => simp [PVal.findUndef])
+
+theorem evalCItems_getElem {ctx : Ctx} {items : List (Str × CExpr)} {pvs : List (Str × PVal)}
+    (h : evalCItems ctx items = .ok pvs) (i : Nat) :
+    ((pvs[i]?).map fun pkv => pkv.2.findUndef.isSome) = ((items[i]?).map fun kv => UsedUndef ctx kv.2) := by
+  induction items generalizing pvs i with
+  | nil => simp [evalCItems] at h; subst h; simp
+  | cons a rest ih =>
+    obtain ⟨k, e⟩ := a
+    simp only [evalCItems] at h
+    cases he : evalC ctx e with
+    | error y => rw [he] at h; cases h
+    | ok pv =>
+      rw [he] at h
+      cases hr : evalCItems ctx rest with
+      | error y => rw [hr] at h; cases h
+      | ok ps =>
+        rw [hr] at h; simp at h; subst h
+        cases i with
+        | zero => simp [UsedUndef, he]
+        | succ j => simpa using ih hr j
+
+/-- **indexing law**: `[…][i]` over a list / tuple literal uses an undefined reference iff the
+item at `i` does, or evaluating one of the items fails — the other items are dropped -/
+theorem used_index_coll (ctx : Ctx) (k : CKind) (items : List (Str × CExpr)) (i : Nat)
+    (hk : k = .list ∨ k = .tuple) (hoff : OffFragment ctx (.index (.coll k items) i) = false) :
+    UsedUndef ctx (.index (.coll k items) i) =
+      (((items[i]?).map fun kv => UsedUndef ctx kv.2).getD false || RaisesItems ctx items) := by
+  cases hr : evalCItems ctx items with
+  | error x =>
+    cases x <;> simp [OffFragment, evalC, hr] at hoff <;> simp [UsedUndef, RaisesItems, evalC, hr]
+  | ok pvs =>
+    rw [← evalCItems_getElem hr i]
+    cases hi : pvs[i]? with
+    | none =>
+      rcases hk with rfl | rfl <;>
+        simp [OffFragment, evalC, hr, PVal.index, PVal.elems, PVal.isDict, CKind.norm, hi] at hoff
+    | some pkv =>
+      rcases hk with rfl | rfl <;>
+        simp [UsedUndef, RaisesItems, evalC, hr, PVal.index, PVal.elems, PVal.isDict, CKind.norm, hi]
+
+theorem evalCItems_length {ctx : Ctx} {items : List (Str × CExpr)} {pvs : List (Str × PVal)}
+    (h : evalCItems ctx items = .ok pvs) : pvs.length = items.length := by
+  induction items generalizing pvs with
+  | nil => simp [evalCItems] at h; subst h; rfl
+  | cons a rest ih =>
+    obtain ⟨k, e⟩ := a
+    simp only [evalCItems] at h
+    cases he : evalC ctx e with
+    | error y => rw [he] at h; cases h
+    | ok pv =>
+      rw [he] at h
+      cases hr : evalCItems ctx rest with
+      | error y => rw [hr] at h; cases h
+      | ok ps => rw [hr] at h; simp at h; subst h; simp [ih hr]
+
+/-- **selecting law for `last`** -/
+theorem used_last_coll (ctx : Ctx) (k : CKind) (items : List (Str × CExpr))
+    (hk : k = .list ∨ k = .tuple) (hoff : OffFragment ctx (.last (.coll k items)) = false) :
+    UsedUndef ctx (.last (.coll k items)) =
+      (((items.getLast?).map fun kv => UsedUndef ctx kv.2).getD false || RaisesItems ctx items) := by
+  cases hr : evalCItems ctx items with
+  | error x =>
+    cases x <;> simp [OffFragment, evalC, hr] at hoff <;> simp [UsedUndef, RaisesItems, evalC, hr]
+  | ok pvs =>
+    have hl := evalCItems_length hr
+    rw [List.getLast?_eq_getElem?, ← hl, ← evalCItems_getElem hr (pvs.length - 1)]
+    have hg : (pvs.map Prod.snd).getLast? = (pvs[pvs.length - 1]?).map Prod.snd := by
+      rw [List.getLast?_eq_getElem?]; simp
+    cases hi : pvs[pvs.length - 1]? with
+    | none =>
+      rcases hk with rfl | rfl <;>
+        simp [OffFragment, evalC, hr, PVal.last, PVal.elems, CKind.norm, hg, hi] at hoff
+    | some pkv =>
+      rcases hk with rfl | rfl <;>
+        simp [UsedUndef, RaisesItems, evalC, hr, PVal.last, PVal.elems, CKind.norm, hg, hi]
+
+/-- **keys law for `last` and `join`**: a dict literal is consumed through its keys -/
+theorem used_last_dict (ctx : Ctx) (k : CKind) (items : List (Str × CExpr))
+    (hk : k = .dict ∨ k = .dictCall) (hoff : OffFragment ctx (.last (.coll k items)) = false) :
+    UsedUndef ctx (.last (.coll k items)) = RaisesItems ctx items := by
+  cases hr : evalCItems ctx items with
+  | error e => cases e <;> simp [UsedUndef, RaisesItems, evalC, hr]
+  | ok pvs =>
+    cases hg : (pvs.map fun kv => PVal.val (.str kv.1)).getLast? with
+    | none =>
+      rcases hk with rfl | rfl <;>
+        simp [OffFragment, evalC, hr, PVal.last, PVal.elems, CKind.norm, hg] at hoff
+    | some x =>
+      have hx : x.findUndef = none := by
+        have := List.mem_of_getLast? hg
+        simp at this
+        obtain ⟨a, b, _, rfl⟩ := this
+        rfl
+      rcases hk with rfl | rfl <;>
+        simp [UsedUndef, RaisesItems, evalC, hr, PVal.last, PVal.elems, CKind.norm, hg, hx]
+
+theorem used_join_dict (ctx : Ctx) (sep : Str) (k : CKind) (items : List (Str × CExpr))
+    (hk : k = .dict ∨ k = .dictCall) :
+    UsedUndef ctx (.join sep (.coll k items)) = RaisesItems ctx items := by
+  cases hr : evalCItems ctx items with
+  | error e => cases e <;> simp [UsedUndef, RaisesItems, evalC, hr]
+  | ok pvs =>
+    obtain ⟨s, hs⟩ := joinStrs_clean sep (xs := pvs.map fun kv => PVal.val (.str kv.1))
+      (by intro x hx; simp at hx; obtain ⟨a, b, _, rfl⟩ := hx; exact clean_val _)
+    rcases hk with rfl | rfl <;>
+      simp [UsedUndef, RaisesItems, evalC, hr, PVal.join, PVal.elems, CKind.norm, hs, PVal.findUndef]
+
+/-- **a consumer never CREATES a use**: if `e|length`, `e|first`, `e|last`, `e[i]` or
+`e|join(sep)` (inside the fragment) uses an undefined reference, `e` already does — consumers
+only DROP uses, which is why F-C16-d goes one way only -/
+theorem consumer_used_mono (ctx : Ctx) (e : CExpr) (hu : UsedUndef ctx e = false) :
+    (OffFragment ctx (.len e) = false → UsedUndef ctx (.len e) = false) ∧
+    (OffFragment ctx (.first e) = false → UsedUndef ctx (.first e) = false) ∧
+    (OffFragment ctx (.last e) = false → UsedUndef ctx (.last e) = false) ∧
+    (∀ i, OffFragment ctx (.index e i) = false → UsedUndef ctx (.index e i) = false) ∧
+    (∀ sep, OffFragment ctx (.join sep e) = false → UsedUndef ctx (.join sep e) = false) := by
+  have key : ∀ (op : PVal → Except Err PVal), (∀ pv, Clean pv → Quiet (op pv)) →
+      ∀ e', (evalC ctx e' = match evalC ctx e with | .error x => .error x | .ok pv => op pv) →
+      OffFragment ctx e' = false → UsedUndef ctx e' = false := by
+    intro op hop e' heq hoff
+    cases he : evalC ctx e with
+    | error x =>
+      rw [he] at heq
+      cases x <;> simp [UsedUndef, he] at hu <;> simp [UsedUndef, OffFragment, heq] at hoff ⊢
+    | ok pv =>
+      rw [he] at heq
+      have hc : Clean pv := by
+        apply (findUndef_none_iff_clean pv).mp
+        cases hf : pv.findUndef with
+        | none => rfl
+        | some q => simp [UsedUndef, he, hf] at hu
+      have q := hop pv hc
+      simp only at heq
+      unfold UsedUndef
+      rw [heq]
+      cases hr : op pv with
+      | error x =>
+        cases x with
+        | undefined p => exact absurd hr (q.1 p)
+        | _ => rfl
+      | ok r => simp [(findUndef_none_iff_clean r).mpr (q.2 r hr)]
+  exact ⟨key _ (fun _ => quiet_len) _ (by simp only [evalC]; cases evalC ctx e <;> rfl),
+    key _ (fun _ => quiet_first) _ (by simp only [evalC]; cases evalC ctx e <;> rfl),
+    key _ (fun _ => quiet_last) _ (by simp only [evalC]; cases evalC ctx e <;> rfl),
+    fun i => key _ (fun _ => quiet_index i) _ (by simp only [evalC]; cases evalC ctx e <;> rfl),
+    fun sep => key _ (fun _ => quiet_join sep) _ (by simp only [evalC]; cases evalC ctx e <;> rfl)⟩
+
+/-! ### not proved -/
+
+/-- NOT proved: a closed syntactic recursion for `UsedUndef`.  The laws above (`used_ref`,
+`used_dflt`, `used_len`, `used_coll`, `used_first_cons`, `used_last_coll`, `used_index_coll`,
+`used_join_coll`, `used_first_dict`, `used_last_dict`, `used_join_dict`) rewrite every consumer
+applied DIRECTLY to a literal and `consumer_used_mono` bounds the rest; the exact law for a
+consumer applied to another consumer's RESULT is missing — its first instance: -/
+def selecting_composes_full : Prop :=
+  ∀ (ctx : Ctx) (k k' : CKind) (key key' : Str) (x : CExpr) (r rest : List (Str × CExpr)),
+    (k = .list ∨ k = .tuple) → (k' = .list ∨ k' = .tuple) →
+    OffFragment ctx (.coll k ((key, .coll k' ((key', x) :: r)) :: rest)) = false →
+    UsedUndef ctx (.first (.first (.coll k ((key, .coll k' ((key', x) :: r)) :: rest)))) =
+      (UsedUndef ctx x || RaisesItems ctx r || RaisesItems ctx rest)
 end Rpft.Props.C16
